@@ -4,6 +4,7 @@ package dsd
 // check here for some benchmarks: https://github.com/alecthomas/go_serialization_benchmarks
 
 import (
+	"bytes"
 	"encoding/json"
 	"errors"
 	"fmt"
@@ -141,7 +142,16 @@ func dumpWithoutIdentifier(t interface{}, format uint8, indent string) ([]byte, 
 			return nil, err
 		}
 	case YAML:
-		data, err = yaml.Marshal(t)
+		// yaml.Marshal is json.Marshal followed by JSONToYAML. encoding/json
+		// leaves U+0085 (NEL) unescaped, which the YAML scanner treats as a
+		// line break inside the quoted string and folds into a space.
+		var jsonData []byte
+		jsonData, err = json.Marshal(t)
+		if err != nil {
+			return nil, err
+		}
+		jsonData = bytes.ReplaceAll(jsonData, []byte("\u0085"), []byte(`\u0085`))
+		data, err = yaml.JSONToYAML(jsonData)
 		if err != nil {
 			return nil, err
 		}
